@@ -6,8 +6,11 @@ mod resolve;
 mod frontend;
 mod batch;
 mod text;
+mod rename;
 mod config;
 mod filters;
+mod astjson;
+mod astsynth;
 
 fn main() {
     let args: Vec<String> = std::env::args().skip(1).collect();
@@ -18,7 +21,10 @@ fn main() {
         Some("batch") => batch::main(&args[1..]),
         Some("config") => config::main(&args[1..]),
         Some("filters") => filters::main(&args[1..]),
+        Some("rename") => rename::main(&args[1..]),
         Some("text") => text::main(&args[1..]),
+        Some("astcheck") => astjson::main_astcheck(&args[1..]),
+        Some("astjson") => astjson::main_astjson(&args[1..]),
         Some("version") => {
             println!("dlv 0.1");
             0
